@@ -58,6 +58,19 @@ package packaging
 //@   invariant 0: forall k in 0..rangeindex+1 :: packageInfo.Versions[k].Package != packageInfo
 //@   ensures no_version_is_the_package_itself: result1 == nil ==> (forall k in 0..len(result0.Versions) :: result0.Versions[k].Package != result0)
 //@   ensures loaded_manifest_is_returned: result1 == nil ==> result0 != nil
+// C11/C09: a package is accepted only if every referenced previous version satisfies the rules, whatever targets
+// are enabled: a successful load has resolved the version list of the manifest and loaded every entry of it.
+//@   property C11,C09
+//@   invariant 0: called(collectVersions) && (forall k in 0..rangeindex+1 :: packageInfo.Versions[k].Package != nil)
+//@   ensures every_listed_version_is_loaded: result1 == nil ==> called(collectVersions) && (forall k in 0..len(result0.Versions) :: result0.Versions[k].Package != nil)
+
+// C08: version labels become the members of the generated C++ `enum class Version`, next to the member `Current`
+// that names the model itself: a previous version cannot be labelled `Current` (two enumerators of one name).
+//@ func (*PackageInfo).validate
+//@   property C08,C09
+//@   requires p != nil
+//@   iteration 0: a_version_cannot_be_labelled_current: ver.Label == "Current" ==> len(errorSink.Errors) > old(len(errorSink.Errors))
+//@   iteration 0: a_version_needs_a_label: ver.Label == "" ==> len(errorSink.Errors) > old(len(errorSink.Errors))
 
 // ---- C10: the manifest reader is input-facing: no nil dereference for any manifest bytes ------------------------
 //@ sweep C10 file pkg/packaging/packageinfo.go
